@@ -117,6 +117,10 @@ def main():
     out = []
     for c in cases:
         try:
+            if c.get("kind") == "line":
+                from harness.impl.c13line import run_line_case
+                out.append(run_line_case(c))
+                continue
             o = run_case(c); o["incl"] = incl
             out.append(o)
         except Exception as e:  # noqa: BLE001
